@@ -122,7 +122,7 @@ func genTransport(g *rand.Rand, tier string) any {
 	p.BigBody = g.IntN(8) == 0
 	switch p.Kind {
 	case 0:
-		p.Mode = g.IntN(2)
+		p.Mode = g.IntN(3)
 	case 1:
 		p.Mode = g.IntN(3)
 	case 2:
@@ -280,11 +280,89 @@ func execChannelTransport(e *Env, p *TransportParams) {
 	ab, ba := make(chan *goat.Rpc, n), make(chan *goat.Rpc, n)
 	a := goat.NewGoatOverChannel(ba, ab)
 	b := goat.NewGoatOverChannel(ab, ba)
-	if p.Mode%2 == 0 {
+	switch p.Mode % 3 {
+	case 0:
 		roundTrip(e, "channel", a, b, envsOf(p, false))
+	case 1:
+		blockedOps(e, "channel", b, a)
+	default:
+		cancelledReads(e, "channel", a, b, envsOf(p, false))
+	}
+}
+
+// cancelledReads: reads whose context is already done, or is cancelled at a
+// moment the scheduler chooses, are mixed with reads on a live context while
+// the peer writes. A Read either returns an envelope or an error; an envelope
+// is never taken off the transport and dropped: what all reads returned, in
+// order, is exactly what was written.
+func cancelledReads(e *Env, name string, w, r goat.RpcReadWriter, envs []*Rpc) {
+	const prop = "C19"
+	ctx, cancel := context.WithCancel(context.Background())
+	e.OnTeardown(cancel)
+	e.Go(name+".writer", func() {
+		for _, m := range envs {
+			e.Pt("t.write")
+			if w.Write(ctx, m) != nil {
+				return
+			}
+		}
+	})
+	var got []*Rpc
+	failed := 0
+	e.Go(name+".reader", func() {
+		for attempt := 0; len(got) < len(envs); attempt++ {
+			e.Pt("t.read")
+			rctx := ctx
+			if attempt < 3*len(envs)+4 {
+				switch attempt % 3 {
+				case 0: // context done before the Read
+					c, cc := context.WithCancel(ctx)
+					cc()
+					rctx = c
+				case 1: // cancelled while the Read is under way
+					c, cc := context.WithCancel(ctx)
+					rctx = c
+					e.Go(fmt.Sprintf("%s.canceller%d", name, attempt), func() {
+						e.Pt("t.cancel")
+						cc()
+					})
+				}
+			}
+			m, err := r.Read(rctx)
+			if err != nil {
+				failed++
+				if rctx == ctx {
+					return
+				}
+				continue
+			}
+			got = append(got, m)
+		}
+	})
+	if rr := e.Settle(); rr == Crashed || rr == StepLimit {
 		return
 	}
-	blockedOps(e, "channel", b, a)
+	e.Note("nontrivial")
+	e.Note("cancelled-reads." + name)
+	if failed > 0 {
+		e.Note("fault.ctx.cancel")
+	}
+	for i, m := range got {
+		if i >= len(envs) || !proto.Equal(m, envs[i]) {
+			e.Violate(prop, "lost-or-reordered-on-cancelled-read", name, "read #%d returned envelope id %d; envelope #%d written was id %d (%d reads failed on their context before): an envelope was taken off the transport and dropped, or order was lost", i, m.GetId(), i, idAt(envs, i), failed)
+			return
+		}
+	}
+	if len(got) != len(envs) {
+		e.Violate(prop, "lost-or-reordered-on-cancelled-read", name, "%d envelopes were written, the reads returned %d (%d reads failed on their context): a Read that reported an error had consumed an envelope\n%s", len(envs), len(got), failed, e.WaitGraph())
+	}
+}
+
+func idAt(envs []*Rpc, i int) uint64 {
+	if i < len(envs) {
+		return envs[i].GetId()
+	}
+	return 0
 }
 
 // pipeListener hands out the server side of net.Pipe connections.
